@@ -30,6 +30,9 @@ func start(t *testing.T, prop, level, rule string) *ev.Recorder {
 	}
 	flag.Set("rapid.shrinktime", shrink)
 	rec := ev.Start(t, prop, level, rule)
+	// the reproduction of KF-array-alias (owned by C09) is a "locality" case; every
+	// check that needs its exclusion must be able to re-run it
+	rec.Replayer("locality", replayDiff(true))
 	return rec
 }
 
